@@ -370,6 +370,7 @@ func genC08(out *Out, r *Rng, tier string, n int, shard int) {
 			emitSMT(out, r, f, nclaims)
 		}
 		emitSMTDocShapes(out, r, nclaims)
+		emitChangedAfterIssuanceSMT(out, r)
 	}
 	_ = poseidon.Hash
 }
@@ -570,4 +571,55 @@ func init() { gens["C08"] = genC08 }
 func unusableRoot(r *Rng) string {
 	return r.Pick([]string{"", "zz", "12345", "0x00", strings.Repeat("f", 64), strings.Repeat("0", 63), strings.Repeat("0", 66), "123456789012345678901234567890123456789012345678901234567890123g",
 		"21888242871839275222246405745257275088548364400416034343698204186575808495617", " " + strings.Repeat("0", 63)})
+}
+
+// the credential is changed after issuance (one bound statement) and presented with the genuine inclusion proof of the original claim:
+// the claim the proof carries to the claims-tree root is no longer this credential's claim, verification must fail - for merklized and
+// for non-merklized (serialized) credentials alike, whatever part of the claim the change reaches (predicate only; the binding itself is
+// C06's model-compared subject).
+func emitChangedAfterIssuanceSMT(out *Out, r *Rng) {
+	s := newVerifySetup(r, true, r.Intn(20))
+	p, err := s.is.IssueSMT(s.claim)
+	if err != nil {
+		return
+	}
+	muts := credMutations()
+	var why []string
+	var tried []string
+	for _, m := range muts {
+		if m.name == "none" || m.name == "unbound-credential-id" || (m.merklOnly && s.c.SerAttr != "") {
+			continue
+		}
+		c2 := cloneCred(s.c)
+		if !m.apply(c2, r) {
+			continue
+		}
+		merklize.SetDocumentLoader(c2.loader())
+		v, e := c2.W3C()
+		if e != nil {
+			continue
+		}
+		// only changes that reach the claim are judged (the re-derived claim differs from the issued one)
+		cl2, e2 := runToCoreClaim(v, optsFromClaim(s.claim), c2)
+		if e2 == nil {
+			h1, _ := cl2.Hex()
+			h0, _ := s.claim.Hex()
+			if h1 == h0 {
+				continue
+			}
+		}
+		v2, _ := c2.W3C()
+		v2.Proof = verifiable.CredentialProofs{p}
+		k := 0
+		verr := runVerify(v2, verifiable.Iden3SparseMerkleTreeProofType, resolverCfg{mode: "published"}.resolver(&k), nil, c2.loader())
+		tried = append(tried, m.name)
+		if verr == nil {
+			why = append(why, fmt.Sprintf("the credential was changed after issuance (%s; serialized schema: %v) and still verifies with the inclusion proof of the original claim", m.name, s.c.SerAttr != ""))
+		}
+		if errClass(verr) == "panic" || errClass(verr) == "hang" {
+			why = append(why, verr.Error())
+		}
+	}
+	merklize.SetDocumentLoader(s.c.loader())
+	out.Emit(Case{Op: "none", In: J{"changed": tried}, Impl: J{}, Prop: propOf(why), Tags: []string{"changed-after-issuance", fmt.Sprintf("serialized:%v", s.c.SerAttr != "")}, NT: len(tried) > 0})
 }
